@@ -650,3 +650,42 @@ func init() {
 		Outside: []string{"outside: channels obtained from write-transaction queries; a waiting goroutine is modelled by the sync observer (every point at which it could wake up relative to the committer's synchronisation operations); pre-state of two objects; more than N later writes; nothing is asserted about channels that close although the result did not change (allowed)"},
 	})
 }
+
+func init() {
+	rounds := func(focus int, p map[string]int) HarnessRun {
+		q := map[string]int{"FOCUS": focus}
+		for k, v := range p {
+			q[k] = v
+		}
+		return HarnessRun{Entry: "VerifC14Rounds", Params: q, Covers: []string{"C14.end", "C14.failure", "C16.retry-attempted"}, NoNative: true, Deadlock: true}
+	}
+	base := map[string]int{"R": 2, "KEYS": 2, "W": 2, "F": 2, "INJECT": 1}
+	two := map[string]int{"R": 2, "KEYS": 1, "W": 2, "F": 2, "INJECT": 1, "TWO": 1}
+	batch := map[string]int{"R": 2, "KEYS": 2, "W": 2, "F": 2, "INJECT": 0, "BATCH": 1}
+	rs1 := map[string]int{"R": 2, "KEYS": 2, "W": 2, "F": 1, "INJECT": 0, "ROUNDSIZE": 1, "K": 5}
+	big := map[string]int{"R": 3, "KEYS": 2, "W": 3, "F": 3, "INJECT": 1}
+	big2 := map[string]int{"R": 3, "KEYS": 1, "W": 3, "F": 3, "INJECT": 1, "TWO": 1}
+	bo := map[string]int{"R": 2, "KEYS": 1, "W": 1, "F": 3, "INJECT": 0, "MINB": 2, "MAXB": 8}
+	probe := HarnessRun{Entry: "VerifKFRetryStatusLost"}
+	outside := []string{"outside: refreshLoop, prune cadence, rate limiters (stubbed), hive job restarts, real time (virtual discrete-event time); more than R symbolic rounds + K quiescent rounds, 2 keys, F failure decisions, W user writes; the reconcile loop's select is replaced by the harness calling incremental.run round by round (the real run/commitStatus/processRetries/retries code is executed); choices are explicit forks (payload values symbolic), so the solver contributes little beyond path bookkeeping",
+		"VM-only vocabulary (virtual time): counterexamples of VerifC14Rounds are replayed concretely in the VM; VerifKFRetryStatusLost also replays natively"}
+	reg(&CheckSpec{ID: "C14", PkgDir: "reconciler",
+		Quick:    []HarnessRun{rounds(14, base), rounds(14, two), rounds(14, batch), rounds(14, rs1), probe},
+		Thorough: []HarnessRun{rounds(14, big), rounds(14, big2), rounds(14, batch), rounds(14, rs1), rounds(14, bo), probe},
+		Known:    []KnownProbe{{ID: "KF-retry-status-lost", Entry: "VerifKFRetryStatusLost"}},
+		Outside:  outside})
+	reg(&CheckSpec{ID: "C15", PkgDir: "reconciler",
+		Quick:    []HarnessRun{rounds(15, base), rounds(15, two), rounds(15, batch), probe},
+		Thorough: []HarnessRun{rounds(15, big), rounds(15, big2), rounds(15, batch), probe},
+		Outside:  append([]string{"Prune gating (only after Initialized, complete contents) is not exercised: the harness drives incremental.run, not reconcileLoop"}, outside...)})
+	reg(&CheckSpec{ID: "C16", PkgDir: "reconciler",
+		Quick: []HarnessRun{
+			{Entry: "VerifC16Retries", Params: map[string]int{"N": 3}, Covers: []string{"C16.popped", "C16.timer-fired", "C16.retries.end"}, NoNative: true, Deadlock: true},
+			{Entry: "VerifC16Backoff", Covers: []string{"C16.backoff.end"}, DiffRuns: 2},
+			rounds(16, base), rounds(16, bo)},
+		Thorough: []HarnessRun{
+			{Entry: "VerifC16Retries", Params: map[string]int{"N": 4}, Covers: []string{"C16.popped", "C16.timer-fired", "C16.retries.end"}, NoNative: true, Deadlock: true},
+			{Entry: "VerifC16Backoff", Covers: []string{"C16.backoff.end"}, DiffRuns: 2},
+			rounds(16, big), rounds(16, bo)},
+		Outside: append([]string{"backoff configurations are concrete ((1,1),(1,4),(2,8),(100,60000) ms): math.Pow on floats is evaluated natively by the VM, not encoded; spurious early wake-ups of the retry timer are not violations; WaitUntilReconciled is checked through progressTracker.wait with a cancelled context after every round"}, outside...)})
+}
